@@ -54,7 +54,7 @@ namespace {
   } else {
     auto tags = tokens;
     tags.erase(begin(tags));
-    if (std::isdigit(tags.rbegin()->at(0))) {
+    if (!empty(tags.back()) && std::isdigit(static_cast<unsigned char>(tags.back().front()))) {
       tags.erase(prev(end(tags)));
     }
     return Morphology{ tags };
